@@ -1,17 +1,30 @@
 """Generated/Dispatch.lean from loguru/_defaults.py, _logger.py, _handler.py, _filters.py (C01).
 
 Extracted (tie G): the default level table, and the comparison / min / slice kernels the dispatch model
-is defined in terms of.  Every kernel is located by its *role* in the function (not by its text), then
-translated semantically, so a behaviour-preserving rewrite (`a > b` -> `b < a`) still builds while a
-changed comparison (`>` -> `>=`) makes a theorem of Props/C01 fail.  Anything unexpected: fail closed.
+is defined in terms of.  Every kernel is located by its *role* (which statement of which loop / branch it is
+the test of) and translated semantically, so a behaviour-preserving rewrite (`a > b` -> `b < a`) still builds
+while a changed comparison (`>` -> `>=`) makes a theorem of Props/C01 fail.
+
+Shapes of the hand-modelled control flow are checked by STRUCTURAL PATTERNS, not by source text:
+  * a function is first normalised (`prep`): single-assignment aliases of attribute chains are inlined
+    (`core = self._core`, `enabled = core.enabled`), `if c: x = a / else: x = b` becomes `x = a if c else b`,
+    `d.get(k, None)` becomes `d.get(k)`, a single-use local consumed by the next simple statement is inlined;
+  * patterns are Python statements in which `M_X` stands for any local name and `E_X` for any expression
+    (bound consistently across the patterns of one check) – renaming locals, generator variables or private
+    helpers does not matter; statements are searched by walking the function, in order inside one block.
+What the patterns pin is the semantic content: which attribute is read / written, by which call, in which
+order (e.g. `min_level` recomputed and the registry published BEFORE `handler.stop()`).  Anything that does
+not match: fail closed.
 """
 import ast
+import copy
 
 from extract_lib import Tr, Unsupported, emit, find_class, find_func, lean_chars, parse_module
 
 
+# ----------------------------------------------------------------------------- expression translator
 class Tr2(Tr):
-    """Tr + `len(x)`, `x[:n]` (prefix slice, n >= 0), `min(a, b)` on ints, `x is None`."""
+    """Tr + `len(x)`, `x[:n]` (prefix slice, n >= 0), `min(a, b)` on ints."""
 
     def tr(self, node):
         if isinstance(node, ast.Subscript) and isinstance(node.slice, ast.Slice):
@@ -37,6 +50,220 @@ class Tr2(Tr):
         return super().tr(node)
 
 
+# ----------------------------------------------------------------------------- normalisation
+def _stores(fn):
+    cnt = {}
+    for n in ast.walk(fn):
+        if isinstance(n, ast.Name) and isinstance(n.ctx, (ast.Store, ast.Del)):
+            cnt[n.id] = cnt.get(n.id, 0) + 1
+        if isinstance(n, ast.arg):
+            cnt[n.arg] = cnt.get(n.arg, 0) + 1
+    return cnt
+
+
+def _loads(fn):
+    cnt = {}
+    for n in ast.walk(fn):
+        if isinstance(n, ast.Name) and isinstance(n.ctx, ast.Load):
+            cnt[n.id] = cnt.get(n.id, 0) + 1
+    return cnt
+
+
+class _Subst(ast.NodeTransformer):
+    def __init__(self, name, expr):
+        self.name, self.expr = name, expr
+
+    def visit_Name(self, node):
+        if node.id == self.name and isinstance(node.ctx, ast.Load):
+            return copy.deepcopy(self.expr)
+        return node
+
+
+def _is_attr_chain(e):
+    while isinstance(e, ast.Attribute):
+        e = e.value
+    return isinstance(e, ast.Name)
+
+
+def _blocks(fn):
+    for n in ast.walk(fn):
+        for f in ("body", "orelse", "finalbody"):
+            b = getattr(n, f, None)
+            if isinstance(b, list) and b and isinstance(b[0], ast.stmt):
+                yield b
+        if isinstance(n, ast.Try):
+            for h in n.handlers:
+                yield h.body
+
+
+class _Canon(ast.NodeTransformer):
+    """`d.get(k, None)` -> `d.get(k)`;  `if c: x = a / else: x = b` -> `x = a if c else b`;
+    `if a: if b: X` -> `if a and b: X`"""
+
+    def visit_Call(self, node):
+        self.generic_visit(node)
+        if isinstance(node.func, ast.Attribute) and node.func.attr == "get" and len(node.args) == 2 \
+                and isinstance(node.args[1], ast.Constant) and node.args[1].value is None and not node.keywords:
+            node.args = node.args[:1]
+        return node
+
+    def visit_If(self, node):
+        self.generic_visit(node)
+        # `if a: if b: X` (no else anywhere) -> `if a and b: X`
+        if not node.orelse and len(node.body) == 1 and isinstance(node.body[0], ast.If) and not node.body[0].orelse:
+            inner = node.body[0]
+            parts = []
+            for t in (node.test, inner.test):
+                parts += t.values if isinstance(t, ast.BoolOp) and isinstance(t.op, ast.And) else [t]
+            return ast.copy_location(ast.If(test=ast.BoolOp(op=ast.And(), values=parts), body=inner.body, orelse=[]), node)
+        if len(node.body) == 1 and len(node.orelse) == 1:
+            a, b = node.body[0], node.orelse[0]
+            if isinstance(a, ast.Assign) and isinstance(b, ast.Assign) and len(a.targets) == 1 and len(b.targets) == 1 \
+                    and isinstance(a.targets[0], ast.Name) and isinstance(b.targets[0], ast.Name) \
+                    and a.targets[0].id == b.targets[0].id:
+                return ast.copy_location(
+                    ast.Assign(targets=[a.targets[0]], value=ast.IfExp(test=node.test, body=a.value, orelse=b.value),
+                               lineno=node.lineno), node)
+        return node
+
+
+def prep(fn):
+    fn = copy.deepcopy(fn)
+    fn = ast.fix_missing_locations(_Canon().visit(fn))
+    # nested helper functions are looked up by name (fn.nested_defs), wherever they are defined
+    fn.nested_defs = []
+    for block in _blocks(fn):
+        for st in list(block):
+            if isinstance(st, ast.FunctionDef) and block is not fn.body:
+                fn.nested_defs.append(st)
+                block.remove(st)
+    for st in list(fn.body):
+        if isinstance(st, ast.FunctionDef):
+            fn.nested_defs.append(st)
+            fn.body.remove(st)
+    assigned_attrs = {ast.unparse(t) for n in ast.walk(fn) if isinstance(n, (ast.Assign, ast.AugAssign))
+                      for t in (n.targets if isinstance(n, ast.Assign) else [n.target]) if isinstance(t, ast.Attribute)}
+    # 1. aliases of attribute chains, assigned exactly once
+    for _ in range(10):
+        stores = _stores(fn)
+        done = True
+        for block in _blocks(fn):
+            for i, st in enumerate(block):
+                if isinstance(st, ast.Assign) and len(st.targets) == 1 and isinstance(st.targets[0], ast.Name) \
+                        and stores.get(st.targets[0].id) == 1 and isinstance(st.value, ast.Attribute) \
+                        and _is_attr_chain(st.value) and ast.unparse(st.value) not in assigned_attrs:
+                    name, expr = st.targets[0].id, st.value
+                    del block[i]
+                    if not block:
+                        block.append(ast.Pass())
+                    _Subst(name, expr).visit(fn)
+                    done = False
+                    break
+            if not done:
+                break
+        if done:
+            break
+    # 2. single-use local consumed by the next simple statement
+    for _ in range(20):
+        stores, loads = _stores(fn), _loads(fn)
+        done = True
+        for block in _blocks(fn):
+            for i, st in enumerate(block[:-1]):
+                nxt = block[i + 1]
+                if isinstance(st, ast.Assign) and len(st.targets) == 1 and isinstance(st.targets[0], ast.Name) \
+                        and stores.get(st.targets[0].id) == 1 and loads.get(st.targets[0].id) == 1 \
+                        and isinstance(nxt, (ast.Assign, ast.Expr, ast.Return, ast.AugAssign)) \
+                        and any(isinstance(n, ast.Name) and n.id == st.targets[0].id for n in ast.walk(nxt)):
+                    _Subst(st.targets[0].id, st.value).visit(nxt)
+                    del block[i]
+                    done = False
+                    break
+            if not done:
+                break
+        if done:
+            break
+    return ast.fix_missing_locations(fn)
+
+
+# ----------------------------------------------------------------------------- structural patterns
+def _pat(src):
+    node = ast.parse(src).body[0]
+    return node
+
+
+def pmatch(p, n, b):
+    """match pattern node p against node n, extending bindings b (dict); M_x: any Name, E_x: any expression"""
+    if isinstance(p, ast.Name) and p.id.startswith("M_"):
+        if isinstance(n, ast.arg):
+            nid = n.arg
+        elif isinstance(n, ast.Name):
+            nid = n.id
+        else:
+            return False
+        if p.id in b:
+            return b[p.id] == nid
+        b[p.id] = nid
+        return True
+    if isinstance(p, ast.Name) and p.id.startswith("E_"):
+        if not isinstance(n, ast.expr):
+            return False
+        if p.id in b:
+            return ast.unparse(b[p.id]) == ast.unparse(n)
+        b[p.id] = n
+        return True
+    if type(p) is not type(n):
+        return False
+    for f in p._fields:
+        if f in ("ctx", "type_comment", "kind"):
+            continue
+        pv, nv = getattr(p, f, None), getattr(n, f, None)
+        if isinstance(pv, list):
+            if not isinstance(nv, list) or len(pv) != len(nv):
+                return False
+            for x, y in zip(pv, nv):
+                if isinstance(x, ast.AST):
+                    if not pmatch(x, y, b):
+                        return False
+                elif x != y:
+                    return False
+        elif isinstance(pv, ast.AST):
+            if not isinstance(nv, ast.AST) or not pmatch(pv, nv, b):
+                return False
+        elif pv != nv:
+            return False
+    return True
+
+
+def find_subseq(fn, patterns, b=None, what=""):
+    """the patterns, in this order (gaps allowed), inside ONE statement block of fn; returns the bindings"""
+    pats = [_pat(p) if isinstance(p, str) else p for p in patterns]
+    for block in _blocks(fn):
+        def go(i, j, bb):
+            if j == len(pats):
+                return bb
+            for k in range(i, len(block)):
+                b2 = dict(bb)
+                if pmatch(pats[j], block[k], b2):
+                    r = go(k + 1, j + 1, b2)
+                    if r is not None:
+                        return r
+            return None
+        r = go(0, 0, dict(b or {}))
+        if r is not None:
+            return r
+    raise Unsupported("%s: shape not found: %s" % (what, " ; ".join(p if isinstance(p, str) else ast.unparse(p)
+                                                                      for p in patterns).replace("\n", " ")))
+
+
+def find_expr(fn, pattern, b=None, what=""):
+    p = _pat(pattern).value
+    for n in ast.walk(fn):
+        b2 = dict(b or {})
+        if isinstance(n, ast.expr) and pmatch(p, n, b2):
+            return b2
+    raise Unsupported("%s: expression not found: %s" % (what, pattern))
+
+
 def _returns_nothing(stmts):
     return len(stmts) == 1 and isinstance(stmts[0], ast.Return) and stmts[0].value is None
 
@@ -55,6 +282,43 @@ def _ordcmp(test):
         and isinstance(test.ops[0], (ast.Lt, ast.LtE, ast.Gt, ast.GtE))
 
 
+def _names(node):
+    return {n.id for n in ast.walk(node) if isinstance(n, ast.Name)}
+
+
+def _neg_check(fn, var, what):
+    """the unique `if <ordered comparison involving var>: raise ValueError(...)`"""
+    k = [n for n in _ifs(fn) if _raises(n.body, "ValueError") and _ordcmp(n.test) and var in _names(n.test)]
+    if len(k) != 1:
+        raise Unsupported("%s: expected exactly one `if <%s compared>: raise ValueError`" % (what, var))
+    return k[0].test
+
+
+def _param(fn, i):
+    return fn.args.args[i].arg
+
+
+class _Rec(ast.NodeTransformer):
+    """<record>['level'].no  ->  a plain name the translator's env can hold"""
+
+    def __init__(self, text):
+        self.text = text
+
+    def visit_Attribute(self, node):
+        if ast.unparse(node) == self.text:
+            return ast.copy_location(ast.Name(id="RECORD_LEVEL_NO", ctx=ast.Load()), node)
+        return self.generic_visit(node)
+
+
+def _tr_bool(node, env, rec=None):
+    if rec is not None:
+        node = _Rec(rec + "['level'].no").visit(copy.deepcopy(node))
+    t, ty = Tr2(env).tr(node)
+    Tr.need(ty, "bool")
+    return t
+
+
+# ----------------------------------------------------------------------------- the extraction
 def generate():
     errors = []
     body = "import LoguruModel.Py.Basic\nset_option linter.unusedVariables false\nnamespace Dispatch.Gen\n\n"
@@ -72,242 +336,254 @@ def generate():
                     defaults[node.targets[0].id] = a[2].value
         ltree, _ = parse_module("_logger.py")
         core = find_class(ltree, "Core")
-        init = find_func(core, "__init__")
+        init = prep(find_func(core, "__init__"))
         levels = None
-        for node in init.body:
-            if isinstance(node, ast.Assign) and ast.unparse(node.targets[0]) == "levels" and isinstance(node.value, ast.List):
-                levels = node.value
+        for node in ast.walk(init):
+            if isinstance(node, ast.List) and node.elts \
+                    and all(isinstance(e, ast.Call) and ast.unparse(e.func) == "Level" for e in node.elts):
+                levels = node
         if levels is None:
-            raise Unsupported("Core.__init__: `levels = [...]` not found")
+            raise Unsupported("Core.__init__: list of Level(...) not found")
         rows = []
         for e in levels.elts:
-            if not (isinstance(e, ast.Call) and ast.unparse(e.func) == "Level" and len(e.args) == 4
-                    and isinstance(e.args[0], ast.Constant) and isinstance(e.args[0].value, str)):
+            if not (len(e.args) == 4 and isinstance(e.args[0], ast.Constant) and isinstance(e.args[0].value, str)):
                 raise Unsupported("Level(...) entry shape: " + ast.unparse(e)[:60])
             ref = ast.unparse(e.args[1])
-            if not ref.startswith("_defaults.") or ref[len("_defaults."):] not in defaults:
+            key = ref.split(".")[-1]
+            if key not in defaults or ref not in ("_defaults." + key, key):
                 raise Unsupported("level number is not an int default of _defaults.py: " + ref)
-            rows.append("(%s, (%d : Int))" % (lean_chars(e.args[0].value), defaults[ref[len("_defaults."):]]))
-        init_src = ast.unparse(init)
-        for want in ("self.levels = {level.name: level for level in levels}",
-                     "self.levels_lookup = {name: (name, name, level.no, level.icon) for name, level in self.levels.items()}",
-                     "self.handlers_count = 0", "self.handlers = {}", "self.min_level = float('inf')",
-                     "self.enabled = {}", "self.activation_list = []", "self.activation_none = True"):
-            if want not in init_src:
-                raise Unsupported("Core.__init__ no longer contains: " + want)
+            rows.append("(%s, (%d : Int))" % (lean_chars(e.args[0].value), defaults[key]))
+        for pats in (["self.levels = {M_A.name: M_A for M_A in E_LS}"],
+                     ["self.levels_lookup = {M_N: (M_N, M_N, M_L.no, M_L.icon) for M_N, M_L in self.levels.items()}"],
+                     ["self.handlers_count = 0"], ["self.handlers = {}"], ["self.min_level = float('inf')"],
+                     ["self.enabled = {}"], ["self.activation_list = []"], ["self.activation_none = True"]):
+            find_subseq(init, pats, what="Core.__init__")
         body += "/-- `Core.__init__`: default levels (name, severity), numbers from `_defaults.py` -/\n"
         body += "def defaultLevels : List (Py.Str × Int) := [\n  " + ",\n  ".join(rows) + "]\n\n"
 
         # ---------------------------------------------------------------- Logger._log
         logger = find_class(ltree, "Logger")
-        logf = find_func(logger, "_log")
-        env = {"level_no": ("level_no", "int"), "core.min_level": ("min_level", "int"),
-               "self._core.min_level": ("min_level", "int")}
-        k = [n for n in _ifs(logf) if _returns_nothing(n.body) and not n.orelse and "min_level" in ast.unparse(n.test)]
-        if len(k) != 1:
-            raise Unsupported("_log: expected exactly one `if <level_no vs min_level>: return`")
-        t, ty = Tr2(env).tr(k[0].test)
-        Tr.need(ty, "bool")
-        body += "/-- `_log`: `%s` → return (finite `min_level`; `inf` is handled by the model) -/\n" % ast.unparse(k[0].test)
-        body += "def belowMin (level_no min_level : Int) : Bool := %s\n\n" % t
-        first = logf.body[1] if isinstance(logf.body[0], ast.Assign) else logf.body[0]
-        if not (isinstance(first, ast.If) and ast.unparse(first.test) == "not core.handlers" and _returns_nothing(first.body)):
-            raise Unsupported("_log: early return on empty registry changed")
-        k = [n for n in _ifs(logf) if _raises(n.body, "ValueError") and _ordcmp(n.test) and ast.unparse(n.test).startswith("level ")]
-        if len(k) != 1:
-            raise Unsupported("_log: negative int level check not found")
-        t, ty = Tr2({"level": ("level", "int")}).tr(k[0].test)
-        body += "/-- `_log`: `%s` → ValueError -/\ndef logRejectsInt (level : Int) : Bool := %s\n\n" % (ast.unparse(k[0].test), t)
-        # the cache tuple written for an int level: (None, "Level %d" % level, level, " ")
-        cache = [n for n in ast.walk(logf) if isinstance(n, ast.Assign) and ast.unparse(n.targets[0]) == "cache"]
-        if len(cache) != 1 or not isinstance(cache[0].value, ast.Tuple) or len(cache[0].value.elts) != 4:
-            raise Unsupported("_log: int level cache tuple")
-        t, ty = Tr2({"level": ("level", "int")}).tr(cache[0].value.elts[2])
+        logf = prep(find_func(logger, "_log"))
+        LV = _param(logf, 1)
+        first = [st for st in logf.body if not (isinstance(st, ast.Expr) and isinstance(st.value, ast.Constant))][0]
+        if not pmatch(_pat("if not self._core.handlers:\n    return"), first, {}):
+            raise Unsupported("_log: does not start with the early return on an empty registry")
+        b = find_subseq(logf, ["M_A, M_B, M_NO, M_D = self._core.levels_lookup[%s]" % LV], what="_log level lookup")
+        NO = b["M_NO"]
+        b2 = find_subseq(logf, ["M_C = (E_0, E_1, E_K, E_3)", "M_A, M_B, M_NO, M_D = M_C",
+                                "self._core.levels_lookup[%s] = M_C" % LV], dict(b), what="_log int level cache")
+        t, ty = Tr2({LV: ("level", "int")}).tr(b2["E_K"])
         Tr.need(ty, "int")
-        body += "/-- `_log`: severity stored for an int level -/\ndef intLevelNo (level : Int) : Int := %s\n\n" % t
-        src = ast.unparse(logf)
-        for want in ("core.levels_lookup[level] = cache",
-                     "level_id, level_name, level_no, level_icon = core.levels_lookup[level]",
-                     "for handler in core.handlers.values():\n        handler.emit("):
-            if want not in src:
-                raise Unsupported("_log no longer contains: " + want.replace("\n", " "))
+        int_level_no = t
+        k = [n for n in _ifs(logf) if _returns_nothing(n.body) and not n.orelse and _ordcmp(n.test)
+             and "self._core.min_level" in ast.unparse(n.test)]
+        if len(k) != 1 or NO not in _names(k[0].test):
+            raise Unsupported("_log: expected exactly one `if <level_no vs core.min_level>: return`")
+        body += "/-- `_log`: `%s` → return (finite `min_level`; `inf` is handled by the model) -/\n" % ast.unparse(k[0].test)
+        body += "def belowMin (level_no min_level : Int) : Bool := %s\n\n" % _tr_bool(
+            k[0].test, {NO: ("level_no", "int"), "self._core.min_level": ("min_level", "int")})
+        t = _neg_check(logf, LV, "_log")
+        body += "/-- `_log`: `%s` → ValueError -/\ndef logRejectsInt (level : Int) : Bool := %s\n\n" % (
+            ast.unparse(t), _tr_bool(t, {LV: ("level", "int")}))
+        body += "/-- `_log`: severity stored for an int level -/\ndef intLevelNo (level : Int) : Int := %s\n\n" % int_level_no
+        # the handler loop
+        hb = None
+        for n in ast.walk(logf):
+            bb = {}
+            if isinstance(n, ast.For) and pmatch(_pat("for M_H in self._core.handlers.values():\n    pass").iter, n.iter, bb) \
+                    and isinstance(n.target, ast.Name):
+                if any(isinstance(c, ast.Call) and ast.unparse(c.func) == n.target.id + ".emit" for c in ast.walk(n)):
+                    hb = n
+        if hb is None:
+            raise Unsupported("_log: loop `for h in core.handlers.values(): h.emit(...)` not found")
+        # the scan on a cache miss
+        scan = [n for n in ast.walk(logf) if isinstance(n, ast.For) and ast.unparse(n.iter) == "self._core.activation_list"]
+        if len(scan) != 1:
+            raise Unsupported("_log: activation scan loop")
+        bs = {}
+        if not pmatch(_pat("for M_R, M_S in self._core.activation_list:\n    if E_T:\n        if M_S:\n            break\n"
+                           "        self._core.enabled[M_NM] = False\n        return"), _strip_orelse(scan[0]), bs):
+            raise Unsupported("_log: activation scan body changed: " + ast.unparse(scan[0]).replace("\n", " ; "))
+        bd = find_subseq(logf, ["M_DN = M_NM + '.'"], {"M_NM": bs["M_NM"]}, what="_log dotted name")
+        body_scan = _tr_bool(bs["E_T"], {bd["M_DN"]: ("dotted_name", "str"), bs["M_R"]: ("rule", "str")})
+        scan_src = ast.unparse(bs["E_T"])
 
         # ---------------------------------------------------------------- Logger.add / remove / level
-        addf = find_func(logger, "add")
-        asg = [n for n in ast.walk(addf) if isinstance(n, ast.Assign) and ast.unparse(n.targets[0]) == "self._core.min_level"]
-        if len(asg) != 1:
-            raise Unsupported("add: exactly one assignment to core.min_level expected")
-        t, ty = Tr2({"self._core.min_level": ("min_level", "int"), "levelno": ("levelno", "int")}).tr(asg[0].value)
+        addf = prep(find_func(logger, "add"))
+        hcall = [n for n in ast.walk(addf) if isinstance(n, ast.Call) and ast.unparse(n.func) == "Handler"]
+        if len(hcall) != 1:
+            raise Unsupported("add: Handler(...) construction not found")
+        kw = {k_.arg: k_.value for k_ in hcall[0].keywords}
+        if not (isinstance(kw.get("levelno"), ast.Name) and isinstance(kw.get("filter_"), ast.Name)
+                and isinstance(kw.get("id_"), ast.Name)):
+            raise Unsupported("add: Handler(levelno=<name>, filter_=<name>, id_=<name>) expected")
+        LNO, FF, HID = kw["levelno"].id, kw["filter_"].id, kw["id_"].id
+        ba = find_subseq(addf, ["M_HS = self._core.handlers.copy()", "M_HS[%s] = M_HD" % HID,
+                                "self._core.handlers = M_HS"], what="add copy-on-write")
+        bm = find_subseq(addf, ["M_HS = self._core.handlers.copy()", "self._core.min_level = E_V"],
+                         {"M_HS": ba["M_HS"]}, what="add min_level")
+        t, ty = Tr2({"self._core.min_level": ("min_level", "int"), LNO: ("levelno", "int")}).tr(bm["E_V"])
         Tr.need(ty, "int")
-        body += "/-- `add`: `self._core.min_level = %s` (finite case) -/\n" % ast.unparse(asg[0].value)
+        body += "/-- `add`: `self._core.min_level = %s` (finite case) -/\n" % ast.unparse(bm["E_V"])
         body += "def addMin (min_level levelno : Int) : Int := %s\n\n" % t
-        k = [n for n in _ifs(addf) if _raises(n.body, "ValueError") and _ordcmp(n.test) and ast.unparse(n.test).startswith("levelno ")]
+        t = _neg_check(addf, LNO, "add threshold")
+        body += "/-- `add`: `%s` → ValueError -/\ndef addRejectsThreshold (levelno : Int) : Bool := %s\n\n" % (
+            ast.unparse(t), _tr_bool(t, {LNO: ("levelno", "int")}))
+        dl = [n for n in ast.walk(addf) if isinstance(n, ast.For) and ast.unparse(n.iter) == "filter.items()"
+              and isinstance(n.target, ast.Tuple) and len(n.target.elts) == 2 and isinstance(n.target.elts[0], ast.Name)]
+        if len(dl) != 1:
+            raise Unsupported("add: loop over filter.items() not found")
+        bl = _in_block(dl[0].body, ["M_LPM[%s] = M_LN" % dl[0].target.elts[0].id], {})
+        LN = bl["M_LN"]
+        t = _neg_check(addf, LN, "add dict level")
+        body += "/-- `add` (dict filter): `%s` → ValueError -/\ndef addRejectsDictLevel (levelno : Int) : Bool := %s\n\n" % (
+            ast.unparse(t), _tr_bool(t, {LN: ("levelno", "int")}))
+        k = [n for n in _ifs(addf) if pmatch(_pat("M_X is True").value, n.test, {})
+             and len(n.body) == 1 and pmatch(_pat("%s = 0" % LN), n.body[0], {})]
         if len(k) != 1:
-            raise Unsupported("add: negative threshold check not found")
-        t, ty = Tr2({"levelno": ("levelno", "int")}).tr(k[0].test)
-        body += "/-- `add`: `%s` → ValueError -/\ndef addRejectsThreshold (levelno : Int) : Bool := %s\n\n" % (ast.unparse(k[0].test), t)
-        k = [n for n in _ifs(addf) if _raises(n.body, "ValueError") and _ordcmp(n.test) and ast.unparse(n.test).startswith("levelno_ ")]
-        if len(k) != 1:
-            raise Unsupported("add: negative dict level check not found")
-        t, ty = Tr2({"levelno_": ("levelno", "int")}).tr(k[0].test)
-        body += "/-- `add` (dict filter): `%s` → ValueError -/\ndef addRejectsDictLevel (levelno : Int) : Bool := %s\n\n" % (ast.unparse(k[0].test), t)
-        src = ast.unparse(addf)
-        for want in ("handler_id = self._core.handlers_count\n        self._core.handlers_count += 1",
-                     "handlers = self._core.handlers.copy()\n        handlers[handler_id] = handler",
-                     "parent = filter + '.'\n        length = len(parent)",
-                     "functools.partial(_filters.filter_by_name, parent=parent, length=length)",
-                     "elif level_ is True:\n                levelno_ = 0"):
-            if want not in src:
-                raise Unsupported("add no longer contains: " + want.replace("\n", " "))
-        remf = find_func(logger, "remove")
-        src = ast.unparse(remf)
+            raise Unsupported("add: `level_ is True -> levelno_ = 0` not found")
+        bi = find_subseq(addf, ["%s = self._core.handlers_count" % HID, "self._core.handlers_count += 1"],
+                         what="add id allocation")
+        alloc = [n for n in ast.walk(addf) if isinstance(n, ast.AugAssign)
+                 and ast.unparse(n.target) == "self._core.handlers_count"]
+        raises = [n.lineno for n in ast.walk(addf) if isinstance(n, ast.Raise)]
+        if len(alloc) != 1 or (raises and min(raises) < alloc[0].lineno):
+            raise Unsupported("add: the id is no longer allocated before every validation")
+        if "filter" not in [a.arg for a in addf.args.args + addf.args.kwonlyargs]:
+            raise Unsupported("add: parameter `filter`")
+        bp = find_subseq(addf, ["M_PA = filter + '.'", "%s = E_P" % FF], what="add name filter")
+        call = bp["E_P"]
+        if not (isinstance(call, ast.Call) and ast.unparse(call.func).split(".")[-1] == "partial" and len(call.args) == 1
+                and ast.unparse(call.args[0]).split(".")[-1] == "filter_by_name"
+                and {k_.arg: ast.unparse(k_.value) for k_ in call.keywords}
+                == {"parent": bp["M_PA"], "length": "len(%s)" % bp["M_PA"]}):
+            raise Unsupported("add: partial(filter_by_name, parent=filter + '.', length=len(parent)) expected, got "
+                              + ast.unparse(call))
+
+        remf = prep(find_func(logger, "remove"))
+        RID = _param(remf, 1)
         # the loop body must recompute min_level and publish the registry BEFORE handler.stop() (user code that
         # may raise); the shape "recompute after stop() / once after the loop" is refuted by
         # C01.late_min_level_update_refuted
-        rloops = [n for n in ast.walk(remf) if isinstance(n, ast.For) and ast.unparse(n.iter) == "handler_ids"]
-        if len(rloops) != 1:
-            raise Unsupported("remove: loop over handler_ids not found")
-        stmts = [ast.unparse(st) for st in rloops[0].body]
-        pos = {}
-        for i, st in enumerate(stmts):
-            if st.startswith("self._core.min_level ="):
-                pos.setdefault("min", i)
-            if st == "self._core.handlers = handlers":
-                pos.setdefault("publish", i)
-            if st == "handler.stop()":
-                pos.setdefault("stop", i)
-        if not ("min" in pos and "publish" in pos and "stop" in pos and pos["min"] < pos["stop"] and pos["publish"] < pos["stop"]):
-            raise Unsupported("remove: min_level is not recomputed (and the registry published) before handler.stop() "
-                              "inside the loop - refuted shape, see C01.late_min_level_update_refuted; loop body: "
-                              + " ; ".join(stmts))
-        for want in ("levelnos = (h.levelno for h in handlers.values())",
-                     "self._core.min_level = min(levelnos, default=float('inf'))",
-                     "handlers = self._core.handlers.copy()\n            handler = handlers.pop(handler_id)",
-                     "self._core.handlers = handlers"):
-            if want not in src:
-                raise Unsupported("remove no longer contains: " + want.replace("\n", " "))
-        if src.index("self._core.min_level = min(") < src.index("handlers.pop(handler_id)"):
-            raise Unsupported("remove: min_level recomputed before the pop")
+        ok = False
+        msg = ""
+        for order in (["self._core.min_level = min((M_G.levelno for M_G in M_H.values()), default=float('inf'))",
+                       "self._core.handlers = M_H"],
+                      ["self._core.handlers = M_H",
+                       "self._core.min_level = min((M_G.levelno for M_G in M_H.values()), default=float('inf'))"]):
+            try:
+                br = find_subseq(remf, ["M_IDS = list(self._core.handlers) if %s is None else [%s]" % (RID, RID)],
+                                 what="remove")
+            except Unsupported as e:
+                msg = str(e)
+                break
+            loops = [n for n in ast.walk(remf) if isinstance(n, ast.For) and ast.unparse(n.iter) == br["M_IDS"]]
+            if len(loops) != 1:
+                msg = "remove: loop over the ids not found"
+                break
+            try:
+                _in_block(loops[0].body, ["M_H = self._core.handlers.copy()", "M_R = M_H.pop(M_ID)"] + order
+                          + ["M_R.stop()"], {"M_ID": loops[0].target.id if isinstance(loops[0].target, ast.Name) else "?"})
+                ok = True
+                break
+            except Unsupported as e:
+                msg = ("remove: min_level is not recomputed (and the registry published) before handler.stop() inside "
+                       "the loop - refuted shape, see C01.late_min_level_update_refuted; loop body: "
+                       + " ; ".join(ast.unparse(st) for st in loops[0].body))
+        if not ok:
+            raise Unsupported(msg)
         body += "/-- `remove`: `min_level = min(levelnos of the remaining handlers, default=inf)` – shape checked -/\n"
         body += "def removeRecomputesMin : Bool := true\n\n"
-        levf = find_func(logger, "level")
-        k = [n for n in _ifs(levf) if _raises(n.body, "ValueError") and _ordcmp(n.test) and ast.unparse(n.test).startswith("no ")]
-        if len(k) != 1:
-            raise Unsupported("level: negative severity check not found")
-        t, ty = Tr2({"no": ("no", "int")}).tr(k[0].test)
-        body += "/-- `level`: `%s` → ValueError -/\ndef levelRejectsNo (no : Int) : Bool := %s\n\n" % (ast.unparse(k[0].test), t)
+        levf = prep(find_func(logger, "level"))
+        t = _neg_check(levf, _param(levf, 2), "level")
+        body += "/-- `level`: `%s` → ValueError -/\ndef levelRejectsNo (no : Int) : Bool := %s\n\n" % (
+            ast.unparse(t), _tr_bool(t, {_param(levf, 2): ("no", "int")}))
 
         # ---------------------------------------------------------------- _change_activation
-        chf = find_func(logger, "_change_activation")
-        src = ast.unparse(chf)
-        for want in ("if name != '':\n            name += '.'",
-                     "activation_list.sort(key=modules_depth, reverse=True)",
-                     "return x[0].count('.')",
-                     "self._core.activation_list = activation_list",
-                     "self._core.enabled = enabled",
-                     "enabled = self._core.enabled.copy()"):
-            if want not in src:
-                raise Unsupported("_change_activation no longer contains: " + want.replace("\n", " "))
-        envs = {"n": ("n", "str"), "name": ("name", "str")}
-        comp = [n for n in ast.walk(chf) if isinstance(n, ast.ListComp)]
-        if len(comp) != 1 or len(comp[0].generators) != 1 or len(comp[0].generators[0].ifs) != 1 \
-                or ast.unparse(comp[0].elt) != "(n, s)" or ast.unparse(comp[0].generators[0].iter) != "self._core.activation_list":
-            raise Unsupported("_change_activation: pruning comprehension shape")
-        t, ty = Tr2(envs).tr(comp[0].generators[0].ifs[0])
-        Tr.need(ty, "bool")
-        body += "/-- `_change_activation`: rule `n` is KEPT iff `%s` (name already dotted) -/\n" % ast.unparse(comp[0].generators[0].ifs[0])
-        body += "def actKeeps (n name : Py.Str) : Bool := %s\n\n" % t
-        gen = [n for n in ast.walk(chf) if isinstance(n, ast.GeneratorExp)]
-        if len(gen) != 1 or len(gen[0].generators[0].ifs) != 1 or ast.unparse(gen[0].elt) != "s" \
-                or ast.unparse(gen[0].generators[0].iter) != "activation_list":
-            raise Unsupported("_change_activation: parent_status generator shape")
-        t, ty = Tr2(envs).tr(gen[0].generators[0].ifs[0])
-        Tr.need(ty, "bool")
-        body += "/-- `_change_activation`: rule `n` is a parent of the new `name` iff `%s` -/\n" % ast.unparse(gen[0].generators[0].ifs[0])
-        body += "def actParent (n name : Py.Str) : Bool := %s\n\n" % t
-        k = [n for n in _ifs(chf) if "parent_status" in ast.unparse(n.test)]
-        want = "parent_status != status and (not (name == '' and status is True))"
-        if len(k) != 1 or ast.unparse(k[0].test) != want:
-            raise Unsupported("_change_activation: append condition changed: " + (ast.unparse(k[0].test) if k else "?"))
-        loops = [n for n in ast.walk(chf) if isinstance(n, ast.For) and ast.unparse(n.iter) == "enabled"]
-        if len(loops) != 2:
-            raise Unsupported("_change_activation: cache rewrite loops")
-        loops = [l for l in loops if isinstance(l.body[0], ast.If) and isinstance(l.body[0].test, ast.BoolOp)]
-        if len(loops) != 1:
-            raise Unsupported("_change_activation: cache rewrite loop for str names")
-        inner = loops[0].body[0]
-        if not (isinstance(inner, ast.If) and isinstance(inner.test, ast.BoolOp) and isinstance(inner.test.op, ast.And)
-                and ast.unparse(inner.test.values[0]) == "n is not None" and len(inner.test.values) == 2
-                and ast.unparse(inner.body[0]) == "enabled[n] = status"):
-            raise Unsupported("_change_activation: cache rewrite test shape")
-        t, ty = Tr2(envs).tr(inner.test.values[1])
-        Tr.need(ty, "bool")
-        body += "/-- `_change_activation`: cached module `n` is rewritten iff `%s` -/\n" % ast.unparse(inner.test.values[1])
-        body += "def actCacheHit (n name : Py.Str) : Bool := %s\n\n" % t
-        # the scan in _log on a cache miss
-        scan = [n for n in ast.walk(logf) if isinstance(n, ast.For) and ast.unparse(n.iter) == "core.activation_list"]
-        if len(scan) != 1 or ast.unparse(scan[0].target) != "(dotted_module_name, status)":
-            raise Unsupported("_log: activation scan loop")
-        sif = scan[0].body[0]
-        if not (len(scan[0].body) == 1 and isinstance(sif, ast.If) and not sif.orelse and len(sif.body) == 3
-                and ast.unparse(sif.body[0]) == "if status:\n    break"
-                and ast.unparse(sif.body[1]) == "enabled[name] = False" and _returns_nothing(sif.body[2:])):
-            raise Unsupported("_log: activation scan body")
-        if "dotted_name = name + '.'" not in ast.unparse(logf):
-            raise Unsupported("_log: dotted_name")
-        t, ty = Tr2({"dotted_name": ("dotted_name", "str"), "dotted_module_name": ("rule", "str")}).tr(sif.test)
-        Tr.need(ty, "bool")
-        body += "/-- `_log` (cache miss): rule matches the module iff `%s` -/\n" % ast.unparse(sif.test)
-        body += "def scanMatches (dotted_name rule : Py.Str) : Bool := %s\n\n" % t
+        chf = prep(find_func(logger, "_change_activation"))
+        NM, ST = _param(chf, 1), _param(chf, 2)
+        find_subseq(chf, ["if %s != '':\n    %s += '.'" % (NM, NM)], what="_change_activation dotting")
+        bc = find_subseq(chf, ["M_EN = self._core.enabled.copy()",
+                               "M_AL = [(M_A, M_B) for M_A, M_B in self._core.activation_list if E_K1]",
+                               "M_PS = next((M_B2 for M_A2, M_B2 in M_AL if E_K2), None)",
+                               "if M_PS != %s and (not (%s == '' and %s is True)):\n    M_AL.append((%s, %s))\n"
+                               "    M_AL.sort(key=M_KEY, reverse=True)" % (ST, NM, ST, NM, ST),
+                               "for M_M in M_EN:\n    if M_M is not None and E_K3:\n        M_EN[M_M] = %s" % ST,
+                               "self._core.activation_list = M_AL", "self._core.enabled = M_EN"],
+                         what="_change_activation")
+        # the `def modules_depth` inside the if-body is allowed: match the if separately when it is there
+        keyfn = None
+        for n in list(chf.nested_defs) + [x for x in ltree.body if isinstance(x, ast.FunctionDef)]:
+            if n.name == bc["M_KEY"]:
+                keyfn = n
+        if keyfn is None or len(keyfn.args.args) != 1 or len(keyfn.body) < 1 \
+                or not pmatch(_pat("return %s[0].count('.')" % keyfn.args.args[0].arg),
+                              [s_ for s_ in keyfn.body if not (isinstance(s_, ast.Expr) and isinstance(s_.value, ast.Constant))][0], {}):
+            raise Unsupported("_change_activation: sort key is not `x[0].count('.')`")
+        find_subseq(chf, ["for M_M in M_EN:\n    if M_M is None:\n        M_EN[M_M] = %s" % ST,
+                          "self._core.activation_none = %s" % ST, "self._core.enabled = M_EN", "return"],
+                    {"M_EN": bc["M_EN"]}, what="_change_activation None branch")
+        body += "/-- `_change_activation`: rule `n` is KEPT iff `%s` (name already dotted) -/\n" % ast.unparse(bc["E_K1"])
+        body += "def actKeeps (n name : Py.Str) : Bool := %s\n\n" % _tr_bool(
+            bc["E_K1"], {bc["M_A"]: ("n", "str"), NM: ("name", "str")})
+        body += "/-- `_change_activation`: rule `n` is a parent of the new `name` iff `%s` -/\n" % ast.unparse(bc["E_K2"])
+        body += "def actParent (n name : Py.Str) : Bool := %s\n\n" % _tr_bool(
+            bc["E_K2"], {bc["M_A2"]: ("n", "str"), NM: ("name", "str")})
+        body += "/-- `_change_activation`: cached module `n` is rewritten iff `%s` -/\n" % ast.unparse(bc["E_K3"])
+        body += "def actCacheHit (n name : Py.Str) : Bool := %s\n\n" % _tr_bool(
+            bc["E_K3"], {bc["M_M"]: ("n", "str"), NM: ("name", "str")})
+        body += "/-- `_log` (cache miss): rule matches the module iff `%s` -/\n" % scan_src
+        body += "def scanMatches (dotted_name rule : Py.Str) : Bool := %s\n\n" % body_scan
 
         # ---------------------------------------------------------------- Handler.emit
         htree, _ = parse_module("_handler.py")
-        emitf = find_func(find_class(htree, "Handler"), "emit")
-        k = [n for n in _ifs(emitf) if _returns_nothing(n.body) and not n.orelse and "_levelno" in ast.unparse(n.test)]
+        emitf = prep(find_func(find_class(htree, "Handler"), "emit"))
+        REC = _param(emitf, 1)
+        k = [n for n in _ifs(emitf) if _returns_nothing(n.body) and not n.orelse and "self._levelno" in ast.unparse(n.test)]
         if len(k) != 1:
             raise Unsupported("Handler.emit: threshold gate not found")
-        t, ty = Tr2({"self._levelno": ("levelno", "int"), "record['level'].no": ("record_no", "int")}).tr(_subst_record(k[0].test))
-        Tr.need(ty, "bool")
         body += "/-- `Handler.emit`: `%s` → return -/\n" % ast.unparse(k[0].test)
-        body += "def handlerRejects (levelno record_no : Int) : Bool := %s\n\n" % t
-        src = ast.unparse(emitf)
-        if "if self._filter is not None:\n            if not self._filter(record):\n                return" not in src:
+        body += "def handlerRejects (levelno record_no : Int) : Bool := %s\n\n" % _tr_bool(
+            k[0].test, {"self._levelno": ("levelno", "int"), "RECORD_LEVEL_NO": ("record_no", "int")}, REC)
+        fg = [n for n in _ifs(emitf) if pmatch(_pat("if self._filter is not None and (not self._filter(%s)):\n    return" % REC), n, {})]
+        if len(fg) != 1:
             raise Unsupported("Handler.emit: filter gate shape")
-        if src.index("self._levelno") > src.index("self._filter(record)"):
+        if k[0].lineno > fg[0].lineno:
             raise Unsupported("Handler.emit: filter consulted before the threshold")
 
         # ---------------------------------------------------------------- _filters.py
         ftree, _ = parse_module("_filters.py")
-        fn = find_func(ftree, "filter_none")
-        if ast.unparse(fn.body[0]) != "return record['name'] is not None":
+        fn = prep(find_func(ftree, "filter_none"))
+        if not pmatch(_pat("return %s['name'] is not None" % _param(fn, 0)), fn.body[-1], {}) or len(fn.body) != 1:
             raise Unsupported("filter_none body")
-        fb = find_func(ftree, "filter_by_name")
-        if [a.arg for a in fb.args.args] != ["record", "parent", "length"] or len(fb.body) != 3 \
-                or ast.unparse(fb.body[0]) != "name = record['name']" \
-                or ast.unparse(fb.body[1]) != "if name is None:\n    return False" \
-                or not isinstance(fb.body[2], ast.Return):
-            raise Unsupported("filter_by_name shape")
-        t, ty = Tr2({"name": ("name", "str"), "parent": ("parent", "str"), "length": ("length", "int")}).tr(fb.body[2].value)
-        Tr.need(ty, "bool")
-        body += "/-- `filter_by_name` (name not None): `%s` -/\n" % ast.unparse(fb.body[2].value)
-        body += "def filterByName (name parent : Py.Str) (length : Int) : Bool := %s\n\n" % t
-        fl = find_func(ftree, "filter_by_level")
-        loop = fl.body[1]
-        if not (isinstance(loop, ast.While) and ast.unparse(loop.test) == "True" and len(loop.body) == 6):
-            raise Unsupported("filter_by_level loop shape")
-        want = ["level = level_per_module.get(name, None)", "if level is False:\n    return False", None,
-                "if not name:\n    return True", "index = name.rfind('.')", "name = name[:index] if index != -1 else ''"]
-        for w, st in zip(want, loop.body):
-            if w is not None and ast.unparse(st) != w:
-                raise Unsupported("filter_by_level statement changed: " + ast.unparse(st).replace("\n", " "))
-        dec = loop.body[2]
-        if not (isinstance(dec, ast.If) and ast.unparse(dec.test) == "level is not None" and len(dec.body) == 1
-                and isinstance(dec.body[0], ast.Return)):
-            raise Unsupported("filter_by_level decision shape")
-        t, ty = Tr2({"record['level'].no": ("record_no", "int"), "level": ("level", "int")}).tr(_subst_record(dec.body[0].value))
-        Tr.need(ty, "bool")
-        body += "/-- `filter_by_level`: a dict entry `level` admits the record iff `%s` -/\n" % ast.unparse(dec.body[0].value)
-        body += "def levelAdmits (record_no level : Int) : Bool := %s\n" % t
+        fb = prep(find_func(ftree, "filter_by_name"))
+        if len(fb.args.args) != 3:
+            raise Unsupported("filter_by_name parameters")
+        R0, PAR, LEN = _param(fb, 0), _param(fb, 1), _param(fb, 2)
+        bb = None
+        for shape in (["M_N = %s['name']" % R0, "if M_N is None:\n    return False", "return E_K"],
+                      ["M_N = %s['name']" % R0, "return M_N is not None and E_K"]):
+            bb = {}
+            if len(fb.body) == len(shape) and all(pmatch(_pat(p), st, bb) for p, st in zip(shape, fb.body)):
+                break
+            bb = None
+        if bb is None:
+            raise Unsupported("filter_by_name shape: " + ast.unparse(fb).replace("\n", " ; "))
+        body += "/-- `filter_by_name` (name not None): `%s` -/\n" % ast.unparse(bb["E_K"])
+        body += "def filterByName (name parent : Py.Str) (length : Int) : Bool := %s\n\n" % _tr_bool(
+            bb["E_K"], {bb["M_N"]: ("name", "str"), PAR: ("parent", "str"), LEN: ("length", "int")})
+        fl = prep(find_func(ftree, "filter_by_level"))
+        R0, LPM = _param(fl, 0), _param(fl, 1)
+        shape = "M_N = %s['name']\nwhile True:\n    M_LV = %s.get(M_N)\n    if M_LV is False:\n        return False\n" \
+                "    if M_LV is not None:\n        return E_K\n    if not M_N:\n        return True\n" \
+                "    M_I = M_N.rfind('.')\n    M_N = M_N[:M_I] if M_I != -1 else ''" % (R0, LPM)
+        pats = ast.parse(shape).body
+        bb = {}
+        if len(fl.body) != 2 or not all(pmatch(p, st, bb) for p, st in zip(pats, fl.body)):
+            raise Unsupported("filter_by_level shape: " + ast.unparse(fl).replace("\n", " ; "))
+        body += "/-- `filter_by_level`: a dict entry `level` admits the record iff `%s` -/\n" % ast.unparse(bb["E_K"])
+        body += "def levelAdmits (record_no level : Int) : Bool := %s\n" % _tr_bool(
+            bb["E_K"], {"RECORD_LEVEL_NO": ("record_no", "int"), bb["M_LV"]: ("level", "int")}, R0)
     except (Unsupported, SyntaxError, KeyError, AttributeError, IndexError, ValueError) as e:
         errors.append("%s: %s" % (type(e).__name__, e))
     body += "\nend Dispatch.Gen\n"
@@ -315,15 +591,27 @@ def generate():
                 errors)
 
 
-class _Rec(ast.NodeTransformer):
-    """record['level'].no  ->  a plain name the translator's env can hold"""
-
-    def visit_Attribute(self, node):
-        if ast.unparse(node) in ("record['level'].no",):
-            return ast.copy_location(ast.Name(id="record['level'].no", ctx=ast.Load()), node)
-        return self.generic_visit(node)
+def _strip_orelse(loop):
+    """`for … else: enabled[name] = True` and the same statement after the loop are the same scan"""
+    l2 = copy.copy(loop)
+    l2.orelse = []
+    return l2
 
 
-def _subst_record(node):
-    import copy
-    return _Rec().visit(copy.deepcopy(node))
+def _in_block(block, patterns, b):
+    pats = [_pat(p) for p in patterns]
+
+    def go(i, j, bb):
+        if j == len(pats):
+            return bb
+        for k in range(i, len(block)):
+            b2 = dict(bb)
+            if pmatch(pats[j], block[k], b2):
+                r = go(k + 1, j + 1, b2)
+                if r is not None:
+                    return r
+        return None
+    r = go(0, 0, dict(b))
+    if r is None:
+        raise Unsupported("block shape")
+    return r
